@@ -60,7 +60,9 @@ class FuzzyFinder(object):
         if not graph and not self.graph:
             raise ValueError("Please provide a RDF graph")
 
-        if not self.graph:
+        # A graph handed to find() is the one to be searched, also when the
+        # finder has searched another graph before.
+        if graph:
             self.graph = graph
 
         if q_str and q_params:
